@@ -26,6 +26,7 @@ import (
 	"github.com/compose-spec/compose-go/v2/loader"
 
 	"verifharness/core"
+	"verifharness/p/schemacorr"
 )
 
 type c01Args struct {
@@ -317,36 +318,36 @@ func c01Rich() M {
 	return M{
 		"services": M{
 			"a": M{
-				"image":        "busybox",
-				"command":      L{"sleep", "1"},
-				"entrypoint":   "/bin/sh -c",
-				"environment":  M{"K": "v", "N": nil},
-				"labels":       L{"l=v"},
-				"ports":        L{"8080:80", M{"target": 81, "published": "8081"}},
-				"expose":       L{"90"},
-				"volumes":      L{"a:/data", "./src:/src:ro", M{"type": "tmpfs", "target": "/t"}},
-				"networks":     M{"a": M{"aliases": L{"x"}}},
-				"depends_on":   L{"b"},
-				"build":        M{"context": ".", "args": L{"A=1"}, "secrets": L{"a"}},
-				"logging":      M{"driver": "json-file", "options": M{"max-size": "1m"}},
-				"healthcheck":  M{"test": L{"CMD", "true"}, "interval": "1s"},
-				"deploy":       M{"replicas": 1, "resources": M{"limits": M{"cpus": "0.5", "memory": "10M"}, "reservations": M{"devices": L{M{"capabilities": L{"gpu"}, "count": 1}}}}},
-				"ulimits":      M{"nofile": M{"soft": 1, "hard": 2}, "nproc": 3},
-				"secrets":      L{"a"},
-				"configs":      L{M{"source": "a", "target": "/c"}},
-				"extra_hosts":  L{"h:1.2.3.4"},
-				"dns":          L{"1.1.1.1"},
-				"cap_add":      L{"ALL"},
-				"sysctls":      M{"net.core.somaxconn": 1},
-				"tmpfs":        "/run",
-				"devices":      L{"/dev/null:/dev/null"},
-				"blkio_config": M{"weight": 10, "device_read_bps": L{M{"path": "/dev/null", "rate": "1mb"}}},
-				"develop":      M{"watch": L{M{"path": ".", "action": "rebuild"}}},
-				"annotations":  M{"k": "v"},
-				"pid":          "host",
-				"mem_limit":    "10m",
+				"image":             "busybox",
+				"command":           L{"sleep", "1"},
+				"entrypoint":        "/bin/sh -c",
+				"environment":       M{"K": "v", "N": nil},
+				"labels":            L{"l=v"},
+				"ports":             L{"8080:80", M{"target": 81, "published": "8081"}},
+				"expose":            L{"90"},
+				"volumes":           L{"a:/data", "./src:/src:ro", M{"type": "tmpfs", "target": "/t"}},
+				"networks":          M{"a": M{"aliases": L{"x"}}},
+				"depends_on":        L{"b"},
+				"build":             M{"context": ".", "args": L{"A=1"}, "secrets": L{"a"}},
+				"logging":           M{"driver": "json-file", "options": M{"max-size": "1m"}},
+				"healthcheck":       M{"test": L{"CMD", "true"}, "interval": "1s"},
+				"deploy":            M{"replicas": 1, "resources": M{"limits": M{"cpus": "0.5", "memory": "10M"}, "reservations": M{"devices": L{M{"capabilities": L{"gpu"}, "count": 1}}}}},
+				"ulimits":           M{"nofile": M{"soft": 1, "hard": 2}, "nproc": 3},
+				"secrets":           L{"a"},
+				"configs":           L{M{"source": "a", "target": "/c"}},
+				"extra_hosts":       L{"h:1.2.3.4"},
+				"dns":               L{"1.1.1.1"},
+				"cap_add":           L{"ALL"},
+				"sysctls":           M{"net.core.somaxconn": 1},
+				"tmpfs":             "/run",
+				"devices":           L{"/dev/null:/dev/null"},
+				"blkio_config":      M{"weight": 10, "device_read_bps": L{M{"path": "/dev/null", "rate": "1mb"}}},
+				"develop":           M{"watch": L{M{"path": ".", "action": "rebuild"}}},
+				"annotations":       M{"k": "v"},
+				"pid":               "host",
+				"mem_limit":         "10m",
 				"stop_grace_period": "1s",
-				"x-ext":        M{"k": L{1, 2}},
+				"x-ext":             M{"k": L{1, 2}},
 			},
 			"b": M{"image": "busybox", "network_mode": "none"},
 		},
@@ -454,7 +455,7 @@ func runC01(ctx *core.Ctx) {
 		c01Models(ctx) // stage-level correspondence (c01_models.go)
 	}
 	if only == "" || only == "schema" {
-		runSchemaCorr(ctx) // gojsonschema vs Schema.conforms (harness/schema.go): the tie behind Props/C01Schema.lean
+		schemacorr.Run(ctx) // gojsonschema vs Schema.conforms (harness/schema.go): the tie behind Props/C01Schema.lean
 	}
 	if only == "" || only == "oracle" {
 		c01Cycles(ctx)
